@@ -640,9 +640,13 @@ def r6_17(ctx):
             if st["k"] == "assign" and st["rv"]["k"] == "agg" and st["rv"]["agg"] == "tuple":
                 for op_ in st["rv"]["ops"]:
                     tree = o.operand(op_)
-                    if any(n.kind == "call" and (n.a or "").endswith("extract_code_block_start") for n in tree.walk()) and \
-                            not any(method_name(c) in ("str::strip_prefix", "str::strip_suffix") for c in tree.call_names()):
-                        raw += 1
+                    # the store as a whole, or one alternative of it (a helper `-> Option<&str>` that was inlined yields a phi of the stripped and the raw text)
+                    cands = [tree] + [k for n in tree.walk() if n.kind == "phi" for k in n.kids]
+                    for cnd in cands:
+                        if any(n.kind == "call" and (n.a or "").endswith("extract_code_block_start") for n in cnd.walk()) and \
+                                not any(method_name(c) in ("str::strip_prefix", "str::strip_suffix") for c in cnd.call_names()):
+                            raw += 1
+                            break
     ctx.check(raw >= 1, "malformed-config-kept", it.where(), "a configuration that is not enclosed in braces is stored as it is (%d store(s)) and reported by the parser" % raw,
               "only the brace-enclosed form of the inline configuration is stored: `{timeout: 3s` (unterminated) or `{timeout: 3s} x` is silently dropped and the test runs "
               "without its configuration")
